@@ -223,6 +223,13 @@ class World:
             log = LoggerStub()
 
         base = fio.BytesIO if sc.get('bytes') else fio.StringIO
+        if sc.get('varlen'):
+            # variable-length replies: a header of two bytes announces how many bytes follow; the documented
+            # recipe is to fetch them in getFullReply, which runs inside the transaction
+            class VarLenIO(fio.BytesIO):
+                def getFullReply(self, request, replyheader):
+                    return replyheader + self.readBytes(replyheader[1])
+            base = VarLenIO
         cfg = {'description': '', 'uri': 'tcp://dev:4711' if sc.get('tcp') else 'fakedev://x', 'timeout': {'value': sc.get('timeout', 2)},
                'pollinterval': {'value': sc.get('pollinterval', 3)}}
         if sc.get('wait_before'):
@@ -261,9 +268,12 @@ def run_scenario(sc, strategy, max_steps=20000):
     s = w.sched
     dev = w.dev
     is_bytes = bool(sc.get('bytes'))
-    RL = 4      # reply length for the byte-oriented variant
+    varlen = bool(sc.get('varlen'))
+    RL = 2 if varlen else 4      # reply (header) length for the byte-oriented variant
 
     def reply_bytes(gid):
+        if varlen:
+            return b'R\x04%02d!!' % gid
         return (b'R%02d!' % gid) if is_bytes else (b'R%d\n' % gid)
 
     def device():
@@ -368,7 +378,7 @@ def run_scenario(sc, strategy, max_steps=20000):
                 for x in r:
                     x = x.decode('latin-1') if isinstance(x, bytes) else x
                     try:
-                        got.append(int(x[1:3] if is_bytes else x[1:]))
+                        got.append(int(x[2:4] if varlen else x[1:3] if is_bytes else x[1:]))
                     except ValueError:
                         got.append(-1)
                 s.log(ev='ret', i=i, ok=True, got=got)
